@@ -88,7 +88,8 @@ fn check_one(b: &BarCtx, len: Option<u64>, pos: u64, replay: &str) -> Result<(us
             return Err(viol("panic", feats, format!("drawing {{bar:{}}} panicked: {}", b.n, crate::world::panic_message(&p)), w, replay.to_string()));
         }
     };
-    let mut text = lines.first().cloned().unwrap_or_default();
+    // (the styled lane runs with colours on: the escape sequences take no room and are not part of the geometry)
+    let mut text = console::strip_ansi_codes(&lines.first().cloned().unwrap_or_default()).to_string();
     let cells_want = b.n / b.cw;
     // the field is padded to N columns when the cells do not add up to N
     let pad = b.n - cells_want * b.cw;
@@ -154,10 +155,16 @@ fn check_one(b: &BarCtx, len: Option<u64>, pos: u64, replay: &str) -> Result<(us
 }
 
 fn make_bar(set: usize, n: usize) -> Result<BarCtx, String> {
+    make_bar_with(set, n, "", "")
+}
+
+/// `{bar:<align>N<rest>}`, e.g. align ">" and rest "!.red/blue"
+fn make_bar_with(set: usize, n: usize, align: &str, rest: &str) -> Result<BarCtx, String> {
     let chars = clusters(CHARSETS[set]);
     let cw = UnicodeWidthStr::width(chars[0].as_str());
+    let template = format!("{{bar:{align}{n}{rest}}}");
     let style = catch_unwind(|| {
-        ProgressStyle::with_template(&format!("{{bar:{n}}}")).unwrap().progress_chars(CHARSETS[set])
+        ProgressStyle::with_template(&template).unwrap().progress_chars(CHARSETS[set])
     })
     .map_err(|p| crate::world::panic_message(&p))?;
     let (pb, spy) = new_bar(300, 60000, Some(1));
@@ -266,6 +273,54 @@ fn sampled_case(seed: u64, idx: u64) -> CaseOut {
     }
     b.pb.abandon();
     co.count("bars_rendered_and_parsed", bars);
+    co
+}
+
+/// Styled bars (round 12): colours on, `{bar:<align>N[!].fg/bg}` - the escape sequences that colour the filled and the
+/// empty part must not count as columns anywhere (alignment, truncation), so the geometry laws hold unchanged.
+/// N is a multiple of the cell width here, so the field has no padding and the alignment cannot show.
+fn styled_case(seed: u64, idx: u64) -> CaseOut {
+    let mut rng = Rng::derive(seed, 1313, idx);
+    let set = rng.usize(CHARSETS.len());
+    let cw = UnicodeWidthStr::width(clusters(CHARSETS[set])[0].as_str()).max(1);
+    let n = (rng.range(1, 64) as usize / cw).max(1) * cw;
+    let align = *rng.pick(&["", "<", ">", "^"]);
+    let rest = format!("{}{}", if rng.chance(1, 2) { "!" } else { "" }, rng.pick(&[".red/blue", ".green", ".cyan/blue", ".white.on_black/yellow"]));
+    let replay = format!("y{seed}:{idx}");
+    let mut co = CaseOut::held(fnv1a(format!("y{set}:{n}:{align}:{rest}:{idx}").as_bytes()), true);
+    let b = match make_bar_with(set, n, align, &rest) {
+        Ok(b) => b,
+        Err(e) => {
+            co.verdict = Verdict::Inconclusive(format!("style rejected: {e}"));
+            return co;
+        }
+    };
+    let mut bars = 0;
+    for _ in 0..20 {
+        let len = if rng.chance(1, 6) { None } else { Some(rng.range(0, 5000)) };
+        let pos = match len {
+            Some(l) if l > 0 && rng.chance(3, 4) => rng.below(l + 1),
+            Some(l) => l.saturating_add(rng.range(0, 2)),
+            None => rng.range(0, 1000),
+        };
+        match check_one(&b, len, pos, &replay) {
+            Ok(_) => bars += 1,
+            Err(v) => {
+                co.verdict = match v {
+                    Verdict::Violated(mut x) => {
+                        x.features.push("styled".into());
+                        x.detail = format!("{{bar:{align}{n}{rest}}} with colours on: {}", x.detail);
+                        Verdict::Violated(x)
+                    }
+                    o => o,
+                };
+                std::mem::forget(b);
+                return co;
+            }
+        }
+    }
+    b.pb.abandon();
+    co.count("styled_bars_rendered_and_parsed", bars);
     co
 }
 
@@ -594,7 +649,10 @@ pub fn run(cfg: &RunCfg) -> PropResult {
             let mut it = case[1..].split(':');
             let seed: u64 = it.next().and_then(|s| s.parse().ok()).unwrap_or(cfg.seed);
             let idx: u64 = it.next().and_then(|s| s.parse().ok()).unwrap_or(0);
-            r.add(idx, if case.starts_with('z') { resize_case(seed, idx) } else if case.starts_with('r') { retarget_race_case(seed, idx) } else if wide { wide_case(seed, idx) } else { sampled_case(seed, idx) });
+            if case.starts_with('y') {
+                console::set_colors_enabled(true);
+            }
+            r.add(idx, if case.starts_with('y') { styled_case(seed, idx) } else if case.starts_with('z') { resize_case(seed, idx) } else if case.starts_with('r') { retarget_race_case(seed, idx) } else if wide { wide_case(seed, idx) } else { sampled_case(seed, idx) });
         }
         r
     } else {
@@ -612,6 +670,11 @@ pub fn run(cfg: &RunCfg) -> PropResult {
         r.merge(crate::report::run_parallel_tagged('r', nr, workers(), |i| retarget_race_case(cfg.seed, i)));
         let nz = if cfg.thorough { 400_000 } else { 8_000 };
         r.merge(crate::report::run_parallel_tagged('z', nz, workers(), |i| resize_case(cfg.seed, i)));
+        // styled bars: its own phase, because the colour switch of the console crate is process-wide
+        console::set_colors_enabled(true);
+        let ny = if cfg.thorough { 200_000 } else { 4_000 };
+        r.merge(crate::report::run_parallel_tagged('y', ny, workers(), |i| styled_case(cfg.seed, i)));
+        console::set_colors_enabled(false);
         r.extra.insert("exhaustive_slice".into(), J::from(format!("bar widths 0..=64 x lengths 0..=64 x positions 0..=len+1 x {} character sets", sets.len())));
         r
     };
